@@ -141,6 +141,8 @@ class iCVIFuzzyART(FuzzyART):
         self.is_fitted_ = True
 
         self.W: list[np.ndarray] = []
+        self.weight_sample_counter_ = []
+        self.sample_counter_ = 0
         self.labels_ = np.zeros((X.shape[0],), dtype=int)
 
         self.iCVI = iCVI_CH(X[0])
